@@ -101,6 +101,18 @@ CLAIMED["C11"] = dict(
          "the frames written so far (whole blocks) and the same prefix of samples. RAW (no header) and CAF/ALAC are outside the statement.",
     technique="Lean 4 theorems over a hand-written container model + crash-point snapshots parsed by the implementation",
     design_ref="DESIGN.md §7 C11")
+CLAIMED["C03"] = dict(
+    text="PARTIAL. Proved (Lean 4, for every argument, file content and I/O / allocator / codec answer inside its contract): the header cache all parsers read "
+         "through keeps 0<=indx<=len, 0<=end<=len, 256<=len<=102400 and every buffer access in bounds, for all sequences of header_read/seek/gets/bump and whole "
+         "psf_binheader_readf calls (hypotheses read-size>=0 and SEEK_SET position>=0 proved necessary, met at every call site); psf_open_file's tail: a non-NULL "
+         "result has 1<=channels<=1024, samplerate>=1, frames>=0, sections>=1, non-zero container and codec fields for an ARBITRARY parser result, a NULL result has "
+         "sf_errno != 0 and a non-empty message (error table extracted from the running library); the 8 read wrappers ask the codec for exactly the caller's "
+         "capacity, zero-fill only inside the buffer, return within [0, requested]; sf_seek passes positions in [0, frames]. Five defects of the current tree are proved as counter-examples with partial theorems and reported as KNOWN-FINDING (SDS block scan and the IFF-family chunk loops never ending on a pipe; SVX backward chunk jump looping on every route; CAF info chunk on a pipe giving psf_binheader_readf a negative count; NIST unchecked sscanf reading an uninitialised buffer); a sixth (sf_get_chunk_data dividing by zero via virtual I/O) was fixed in /repo c8a9c60 and is now a full-strength theorem. "
+         "Ties: header-cache log events on parametrised AU headers across all growth boundaries, open-gate probes, wrapper/seek scripts (all deterministic families). "
+         "MONITORED ONLY, not proved: memory safety and termination of the ~25 parsers and the codecs themselves - structure-aware mutations of every writable "
+         "(container, encoding) with all metadata chunks, random API scripts, routes vio/fd/pipe, forked children under ASan with a 5 s per-call alarm.",
+    technique="Lean 4 theorems over hand-written models (header cache, open gate, read wrappers) + sampled correspondence + sanitizer-monitored structure-aware fuzzing",
+    design_ref="DESIGN.md §7 C03")
 
 PENDING_REASON = "check under construction in this round (DESIGN.md §7 gives the plan); not claimed until its check passes on the clean tree"
 
